@@ -26,7 +26,7 @@ MIN_NONTRIVIAL = {'quick': 700, 'thorough': 25000}
 NCASES = {'quick': 1400, 'thorough': 44000}
 TIME_CAP = {'quick': 300, 'thorough': 3600}
 
-REQUIRED_CLASSES = ['sourced-file-defines-a-custom-unit', 'sourced-file-custom-unit:host-main-text', 'sourced-file-custom-unit:host-base-environment', 'staged-base', 'staged-base:units-only', 'staged-base:nodes', 'staged-base:nodes-and-units', 'alias:compare-then-reference', 'alias:import-then-option', 'alias:form-case', 'alias:form-bool-node', 'alias:form-condition', 'alias:ref-inject', 'alias:ref-import', 'alias:modify-source', 'source-local', 'source-remote', 'source-base',
+REQUIRED_CLASSES = ['sourced-file-custom-unit:registered-through-the-api', 'sourced-file-defines-a-custom-unit', 'sourced-file-custom-unit:host-main-text', 'sourced-file-custom-unit:host-base-environment', 'staged-base', 'staged-base:units-only', 'staged-base:nodes', 'staged-base:nodes-and-units', 'alias:compare-then-reference', 'alias:import-then-option', 'alias:form-case', 'alias:form-bool-node', 'alias:form-condition', 'alias:ref-inject', 'alias:ref-import', 'alias:modify-source', 'source-local', 'source-remote', 'source-base',
                     'slice-index', 'slice-range', 'slice-string', 'slice-1d', 'slice-2d', 'slice-in-modification',
                     'host-own-unit', 'host-adopts-unit', 'injection-in-definition', 'injection-in-modification',
                     'injection-converted-into-definition-unit', 'injected-float', 'injected-int', 'injected-str',
